@@ -378,4 +378,100 @@ theorem fixedThresholdX_subset (rnd : Rat → Rat) (hm : MonoRnd rnd) (emb : Lis
   · rw [at_tab_out _ _ _ _ hr] at h
     exact Bool.noConfusion h
 
+/-! ### `rnd64 q` is a double nearest to `q` (the IEEE specification of round-to-nearest) -/
+
+theorem rnd64_scaled_le (a : ℚ) (ha : 0 < a) : a / pow2 (e64 a) ≤ ((2 ^ 53 : Nat) : ℚ) := by
+  have hp := pow2_pos (e64 a)
+  rw [div_le_iff₀ hp]
+  have h1 := (lg_spec a ha).2
+  have h2 : pow2 (lg a + 1) ≤ pow2 (53 + e64 a) := by
+    rw [pow2_le_iff]; have := e64_ge' a; omega
+  rw [pow2_add 53] at h2
+  have : pow2 53 = ((2 ^ 53 : Nat) : ℚ) := pow2_natCast 53
+  rw [this] at h2
+  linarith
+
+/-- the value is a double (`m · 2^e`, `|m| < 2^53`, `e ≥ -1074`; overflow is not modelled) -/
+theorem rnd64_isF64 (a : ℚ) : IsF64 (rnd64 a) := by
+  rcases le_or_gt a 0 with ha | ha
+  · rw [rnd64_nonpos a ha]; exact ⟨0, 0, by omega, by norm_num, by simp⟩
+  rw [rnd64_pos a ha]
+  have hp := pow2_pos (e64 a)
+  have hn0 : 0 ≤ roundEven (a / pow2 (e64 a)) := by
+    have h := roundEven_monotone 0 (a / pow2 (e64 a)) (by positivity)
+    have : roundEven 0 = 0 := by simpa using roundEven_intCast 0
+    rw [this] at h; exact h
+  have hn1 : roundEven (a / pow2 (e64 a)) ≤ 2 ^ 53 := by
+    have h := roundEven_monotone _ _ (rnd64_scaled_le a ha)
+    have : roundEven (((2 ^ 53 : Nat) : ℚ)) = 2 ^ 53 := by
+      have := roundEven_intCast (2 ^ 53)
+      push_cast at this ⊢
+      exact this
+    rw [this] at h; exact h
+  rcases lt_or_eq_of_le hn1 with hlt | heq
+  · exact ⟨roundEven (a / pow2 (e64 a)), e64 a, e64_ge a,
+      by rw [abs_of_nonneg hn0]; exact hlt, rfl⟩
+  · refine ⟨2 ^ 52, e64 a + 1, by have := e64_ge a; omega, by norm_num, ?_⟩
+    rw [heq, Visibility.pow2_succ]
+    push_cast; ring
+
+/-- **no double is closer to `a` than `rnd64 a`** (`a > 0`; for `a ≤ 0` the kernels never call
+it: the argument is an absolute value) -/
+theorem rnd64_nearest (a : ℚ) (ha : 0 < a) (f : ℚ) (hf : IsF64 f) :
+    |rnd64 a - a| ≤ |f - a| := by
+  obtain ⟨m, e', he', hm, rfl⟩ := hf
+  rw [rnd64_pos a ha]
+  have hp := pow2_pos (e64 a)
+  -- nearest among the points of the grid of `a`
+  have grid : ∀ z : Int, |((roundEven (a / pow2 (e64 a)) : Int) : ℚ) * pow2 (e64 a) - a|
+      ≤ |(z : ℚ) * pow2 (e64 a) - a| := by
+    intro z
+    have h := Visibility.roundEven_nearest_int (a / pow2 (e64 a)) z
+    have e1 : ((roundEven (a / pow2 (e64 a)) : Int) : ℚ) * pow2 (e64 a) - a
+        = (((roundEven (a / pow2 (e64 a)) : Int) : ℚ) - a / pow2 (e64 a)) * pow2 (e64 a) := by
+      field_simp
+    have e2 : (z : ℚ) * pow2 (e64 a) - a = ((z : ℚ) - a / pow2 (e64 a)) * pow2 (e64 a) := by
+      field_simp
+    rw [e1, e2, abs_mul, abs_mul, abs_of_pos hp]
+    exact mul_le_mul_of_nonneg_right h (le_of_lt hp)
+  by_cases hee : e64 a ≤ e'
+  · have g := pow2_grid (e64 a) e' hee
+    have := grid (m * ((2 ^ (e' - e64 a).toNat : Nat) : Int))
+    rw [g]
+    push_cast at this ⊢
+    rw [← mul_assoc]
+    exact this
+  · -- a double with a finer last place is below `2^(lg a) ≤ a`, which is on the grid of `a`
+    have hlt : e' < e64 a := by omega
+    have hea : e64 a = lg a - 52 := by
+      unfold e64 at hlt ⊢; split <;> [skip; rfl]
+      rename_i h1; rw [if_pos h1] at hlt; omega
+    have hc1 : pow2 (lg a) ≤ a := (lg_spec a ha).1
+    have hfc : (m : ℚ) * pow2 e' < pow2 (lg a) := by
+      have hp' := pow2_pos e'
+      have hm' : (m : ℚ) < ((2 ^ 53 : Nat) : ℚ) := by
+        have : m < 2 ^ 53 := lt_of_le_of_lt (le_abs_self m) hm
+        exact_mod_cast this
+      have h1 : (m : ℚ) * pow2 e' < ((2 ^ 53 : Nat) : ℚ) * pow2 e' :=
+        mul_lt_mul_of_pos_right hm' hp'
+      have h2 : ((2 ^ 53 : Nat) : ℚ) * pow2 e' = pow2 (53 + e') := by
+        rw [pow2_add, ← pow2_natCast 53]; rfl
+      have h3 : pow2 (53 + e') ≤ pow2 (lg a) := by rw [pow2_le_iff]; omega
+      linarith
+    have g := pow2_grid (e64 a) (lg a) (by omega)
+    have h := grid ((2 ^ (lg a - e64 a).toNat : Nat) : Int)
+    rw [← g] at h
+    have h4 : |pow2 (lg a) - a| = a - pow2 (lg a) := by
+      rw [abs_sub_comm]; exact abs_of_nonneg (by linarith)
+    have h5 : |(m : ℚ) * pow2 e' - a| = a - (m : ℚ) * pow2 e' := by
+      rw [abs_sub_comm]; exact abs_of_nonneg (by linarith)
+    rw [h5]; rw [h4] at h; linarith
+
+/-- **ties go to the even significand**: when `a` lies exactly halfway between two neighbouring
+points of its grid the integer significand chosen is even -/
+theorem rnd64_tie_even (a : ℚ) (_ha : 0 < a)
+    (h : a / pow2 (e64 a) - ((a / pow2 (e64 a)).floor : ℚ) = 1 / 2) :
+    roundEven (a / pow2 (e64 a)) % 2 = 0 :=
+  Visibility.roundEven_tie _ h
+
 end Pyunicorn.LineDist
